@@ -177,7 +177,7 @@ class AnyView:
 
 
 def _term(x):
-    if isinstance(x, (N, AnyView, ObjView, SeqView, TupleView)):
+    if isinstance(x, (N, AnyView, ObjView, SeqView, TupleView, MapView)):
         return x.t
     if isinstance(x, SV):
         return x.t
@@ -194,6 +194,19 @@ def _term(x):
     if z3.is_expr(x):
         return x
     raise TypeError("no term for %r" % (x,))
+
+
+def has_bound_var(e):
+    seen, todo = set(), [e]
+    while todo:
+        x = todo.pop()
+        if x.get_id() in seen:
+            continue
+        seen.add(x.get_id())
+        if z3.is_var(x):
+            return True
+        todo.extend(x.children())
+    return False
 
 
 class ObjView:
@@ -232,7 +245,10 @@ class ObjView:
     def cls_is(self, cls_key):
         spec = self._spec
         c = spec.ctx.repo.get(cls_key) if ":" in cls_key else ExternalRef(cls_key)
-        return z3.Select(spec.ctx.rd(self._heap, "$cls"), self.id) == spec.ctx.E.classes.cid(c)
+        cidt = z3.simplify(z3.Select(spec.ctx.rd(self._heap, "$cls"), self.id))
+        if not z3.is_int_value(cidt) and not has_bound_var(cidt) and spec.ctx.E.classes.is_exception_class(c):
+            spec.ctx.isa_formula(cidt, c)  # instantiates: cid == id(c) => its subclass facts are c's
+        return cidt == spec.ctx.E.classes.cid(c)
 
     def isa(self, cls_key):
         from .engine import isa as isa_fn
@@ -243,7 +259,9 @@ class ObjView:
         reg = spec.ctx.E.classes
         if z3.is_int_value(cidt):
             return z3.BoolVal(reg.is_sub(reg.by_id[cidt.as_long()], c))
-        return isa_fn(cidt, reg.cid(c))
+        if has_bound_var(cidt):
+            return isa_fn(cidt, reg.cid(c))
+        return spec.ctx.isa_formula(cidt, c)
 
     __hash__ = None
 
@@ -277,6 +295,24 @@ class SeqView:
     def contains_id(self, idt):
         k = z3.Int("ck")
         return z3.Exists([k], z3.And(0 <= k, k < self.len, Z.Val.id(self.item_term(k)) == idt))
+
+    __hash__ = None
+
+
+class MapView:
+    def __init__(self, spec, t, ty, heap):
+        self._spec, self.t, self.ty, self._heap = spec, t, ty, heap
+
+    @property
+    def id(self):
+        return Z.Val.id(self.t)
+
+    def has(self, key):
+        return z3.Select(z3.Select(self._spec.ctx.rd(self._heap, "$mhas"), self.id), _term(key))
+
+    def __getitem__(self, key):
+        t = z3.Select(z3.Select(self._spec.ctx.rd(self._heap, "$mval"), self.id), _term(key))
+        return self._spec.view_term(t, self.ty.val, self._heap)
 
     __hash__ = None
 
@@ -340,6 +376,8 @@ class Spec:
             return SeqView(self, t, ty, heap)
         if isinstance(ty, TTuple):
             return TupleView(self, t, ty, heap)
+        if isinstance(ty, TMap):
+            return MapView(self, t, ty, heap)
         if isinstance(ty, (TObj, TAbs, TExc, TFn, TRef)):
             if isinstance(ty, TObj):
                 self.ctx.resolve_ty(ty)
@@ -452,6 +490,8 @@ class Contract:
         self.never_returns = ns.get("never_returns", False)
         self.new_object = ns.get("new_object")
         self.emits_after = ns.get("emits_after")  # (c, ctx, outcome, value, **views): events appended once the outcome is known
+        self.transparent = ns.get("transparent", False)  # callers execute the real body (inlined) instead of using the contract
+        self.delegate = ns.get("delegate")  # (I, **bound) -> value: the abstract callee's outcome IS the outcome of this call (pass-through)
         self.is_async = ns.get("is_async", False)  # abstract coroutine function: the call returns an awaitable
         self.closure_env = ns.get("closure_env")  # (ctx, I, bound) -> [dict]: free variables of a nested function under contract
         self.static = ns.get("static")  # (E) -> {label: bool}: facts decided on the AST itself (class resolution, wiring)
